@@ -29,6 +29,7 @@ var Variants = []Variant{
 	{Name: "syn", Proto: "syn", Serial: true},
 	{Name: "synP", Proto: "syn", Serial: true, Paris: true},
 	{Name: "synR", Proto: "syn", Serial: true, Relaxed: true},
+	{Name: "synPR", Proto: "syn", Serial: true, Paris: true, Relaxed: true}, // both options at once: the random sequence number is then the only per-probe identity AND the quoted source is not compared
 	{Name: "sackR", Proto: "sack", Relaxed: true},
 	{Name: "sackS", Proto: "sack"},
 }
